@@ -243,4 +243,30 @@ example : Src.to_pydict_field Ssub (toPyDict Ssub .camel false) .camel false fSu
 example : Src.to_pydict_field [] (toPyDict [] .camel false) .camel false fTss (getattrField [] fTss false (.list [.ts 1])) false []
     = .raise .attr := by rfl
 
+/-! non-vacuity of the `from_pydict` tie: the translated step run on closed inputs.  `Ssub2`: class 0 = `Top { Sub sub = 1;
+    int32 n = 2; oneof g { Sub pick = 3; } }`, class 1 = `Sub { int32 x = 1; }`.  A scalar is stored; a sub-message is
+    filled in place and stored; a key that names no field is skipped; the message-typed oneof member raises. -/
+def Ssub2 : Schema := [
+  { fields := [{ name := "sub", num := 1, ty := .message, kind := .user 1 }, { name := "n", num := 2, ty := .int32 },
+               { name := "pick", num := 3, ty := .message, kind := .user 1, group := some 0 }], nGroups := 1 },
+  { fields := [{ name := "x", num := 1, ty := .int32 }] }]
+def st0 : MState := { slots := [.ph, .ph, .ph], onWire := true, unknown := [], cur := [Option.none] }
+def isOkSlots (r : Res MState) (p : List Val → Bool) : Bool := match r with | .ok st => p st.slots | _ => false
+example : isOkSlots (Src.from_pydict_key Ssub2 0 (decP Ssub2) st0 (.str [110]) (.num 7))
+    (fun sl => match sl with | [.ph, .int 7, .ph] => true | _ => false) = true := by decide +kernel
+example : isOkSlots (Src.from_pydict_key Ssub2 0 (decP Ssub2) st0 (.str [115, 117, 98]) (.obj [.str [120]] [.num 5]))
+    (fun sl => match sl with | [.msg 1 [.int 5] true [] [], .ph, .ph] => true | _ => false) = true := by decide +kernel
+example : isOkSlots (Src.from_pydict_key Ssub2 0 (decP Ssub2) st0 (.str [122]) (.num 7))
+    (fun sl => match sl with | [.ph, .ph, .ph] => true | _ => false) = true := by decide +kernel
+example : (match Src.from_pydict_key Ssub2 0 (decP Ssub2) st0 (.str [112, 105, 99, 107]) (.obj [.str [120]] [.num 5]) with
+    | .raise .attr => true | _ => false) = true := by decide +kernel
+/-- the guards of `src_from_pydict_key` are satisfiable: a key that names no field (nothing is asked of the state) -/
+example : StepOk Ssub2 0 st0 (.str [122]) (.num 7) := by
+  refine ⟨fun ks ps h => ?_, fun i f hk _ => ?_⟩
+  · cases h
+  · have hq : fieldOfJKey (fieldsOf Ssub2 0) (.str [122]) = .ok Option.none := by rfl
+    rw [hq] at hk
+    injection hk with hk
+    cases hk
+
 end Bp.C14
